@@ -226,6 +226,9 @@ class ZeroLinearOperator(LinearOperator):
         else:
             *batch_shape, m, n = other.shape
             output_shape = (*batch_shape, new_m, n)
+        if torch.is_tensor(other):
+            # the return type matches the type of `other` (see LinearOperator.matmul)
+            return torch.zeros(*output_shape, dtype=other.dtype, device=other.device)
         return ZeroLinearOperator(*output_shape, dtype=other.dtype, device=other.device)
 
     def mul(
